@@ -25,7 +25,52 @@ SIM_LIST = sorted(simcases.SIMS)
 
 def plan(tier):
     n = 4000 if tier == "quick" else 150000
-    return [(s, n) for s in SIM_LIST]
+    m = 1500 if tier == "quick" else 60000
+    return [(s, n) for s in SIM_LIST] + [("prefix:" + s, m) for s in sorted(simcases.CONT)]
+
+
+def one_prefix(case):
+    """F3 - the horizon as crash point: the same seeded schedule is run with a
+    long horizon and with the horizon cut at / just before / just after one of
+    its event times; the cut run must be exactly the `t < tmax` prefix."""
+    import math
+    long_case = dict(case)
+    res, G, labels, _ = simcases.call(long_case, False)
+    if res.status != "done":
+        return [], {"status": res.status, "rows": 0}
+    try:
+        t, cols, names = history.arrays_of(long_case, res.value)
+    except Exception:
+        return [], {"status": "shape", "rows": 0}
+    info = {"status": "done", "rows": len(t)}
+    ev = [x for x in t[1:] if x < 1e17]
+    if not ev:
+        return [], info
+    e = ev[int(case["hpick"] * len(ev)) % len(ev)]
+    pol = case["hpolicy"]
+    T = e if pol == "on_event" else (math.nextafter(e, -math.inf) if pol == "before_event" else
+                                      (math.nextafter(e, math.inf) if pol == "after_event" else e + 0.5 * (min([x for x in ev if x > e] + [e + 1.0]) - e)))
+    if not T < case["tmax"]:
+        return [], info          # the cut must lie inside the long run's horizon
+    cut = dict(case)
+    cut["tmax"] = T
+    res2, _, _, _ = simcases.call(cut, False)
+    if res2.status == "exc":
+        return [sweeps.crash_violation(cut, res2, "arrays (cut horizon)")], info
+    if res2.status != "done":
+        return [], info
+    try:
+        t2, cols2, _ = history.arrays_of(cut, res2.value)
+    except Exception as ex:
+        return [V("shape", "%s/shape" % case["sim"], "cut run returned %r (%s)" % (res2.value, ex), cut)], info
+    want = [(t[k],) + tuple(cols[nm][k] for nm in names) for k in range(len(t)) if k == 0 or t[k] < T]
+    got = [(t2[k],) + tuple(cols2[nm][k] for nm in names) for k in range(len(t2))]
+    info["cut_rows"] = len(got)
+    if got != want:
+        return [V("prefix", "%s/horizon-cut-is-not-a-prefix" % case["sim"],
+                  "same seeded draws: tmax=%r gives rows %r ; the run with tmax=%r restricted to t<%r is %r"
+                  % (T, got[-4:], case["tmax"], T, want[-4:]), dict(cut, long_tmax=case["tmax"]))], info
+    return [], info
 
 
 def one_case(case):
@@ -65,6 +110,23 @@ def tune(case, rng):
 
 
 def run_one(family, rng, idx, tier):
+    if family.startswith("prefix:"):
+        simname = family.split(":", 1)[1]
+        case = simcases.gen_case(rng, simname, horizon="inf", allow_rho=True)
+        model = simcases.SIMS[simname][1]
+        case["tmax"] = float("inf") if model == "SIR" else case["tmin"] + rng.choice([2.0, 4.0])
+        case["hpolicy"] = rng.choice(["on_event", "before_event", "after_event", "mid"])
+        case["hpick"] = rng.random()
+        case["prefix_family"] = True
+        v, info = one_prefix(case)
+        stats = {"evaluations": 2, "fault_F3_horizon_cut": 1, "horizon_%s" % case["hpolicy"]: 1}
+        if info["status"] != "done":
+            return {"skipped": "prefix: %s" % info["status"], "stats": stats}
+        out = {"viol": v, "stats": stats}
+        if info.get("cut_rows", 0) > 1:
+            import hashlib
+            out["keys"] = ["%s|%s" % (family, hashlib.sha256(repr(case).encode()).hexdigest()[:16])]
+        return out
     case = tune(simcases.gen_case(rng, family), rng)
     v, info = one_case(case)
     stats = {"evaluations": 1, "horizon_%s" % case["horizon"]: 1}
@@ -87,5 +149,10 @@ def run_one(family, rng, idx, tier):
 
 
 def replay(case):
+    if case.get("prefix_family"):
+        c = dict(case)
+        if "long_tmax" in c:
+            c["tmax"] = c.pop("long_tmax")
+        return one_prefix(c)[0]
     v, info = one_case(case)
     return v
